@@ -58,6 +58,12 @@ Inductive case :=
 | CInfo (l : mlabel) (kw : option Q) (pick : bool) (us halton : list Q) (out : minfo)
 | CInfoErr (l : mlabel) (pick : bool) (us halton : list Q)      (* the implementation raised KeyError *)
 | CView (rp thr : bool) (b c f o : Z) (pick : bool) (us halton : list Q) (out : minfo)
+(* the real MetricsInfo.has_optimized_metric_thresholds on thresholds per metric column and the optimised columns *)
+| CFlag (thr : list (option Q)) (opt : list nat) (out : bool)
+(* a real View built from a request whose metrics sit in any column order; `fails` = points_sampled.failures,
+   `opens` = len(points_being_sampled.points) or None when the request has no such key *)
+| CRequest (rp : bool) (b : Z) (thr : list (option Q)) (opt : list nat) (fails : list bool) (opens : option nat)
+           (pick : bool) (us halton : list Q) (out : minfo)
 | CFilterGP (info : minfo) (pts vals vars : list row) (fails : list bool) (lie : list Q) (out : fout) (ties : bool)
 | CFilterSPE (info : minfo) (pts vals : list row) (fails : list bool) (lie : list Q)
              (opts : list row) (ovals : list Q) (ties : bool)
@@ -90,6 +96,17 @@ Definition check (c : case) : bool :=
       match info_from_phase l None pick us halton with None => true | Some _ => false end
   | CView rp thr b c f o pick us halton out =>
       oinfo_close (view_info rp thr b c f o pick us halton) out && info_ok_tol out
+  | CFlag thr opt out =>
+      columns_in_range thr opt &&
+      match has_optimized_metric_thresholds thr opt with Some m => Bool.eqb m out | None => false end &&
+      Bool.eqb out (optimized_threshold_b thr opt)
+  | CRequest rp b thr opt fails opens pick us halton out =>
+      let r := mkRequest rp b thr opt fails opens in
+      columns_in_range thr opt &&
+      oinfo_close (request_info r pick us halton) out && info_ok_tol out &&
+      (* the documented wiring: the phase selector applied to "some optimised column carries a threshold" and the counts *)
+      oinfo_close (view_info rp (optimized_threshold_b thr opt) b (rq_count r) (rq_failure_count r) (rq_open_count r)
+                             pick us halton) out
   | CFilterGP info pts vals vars fails lie out ties =>
       let m := filter_gp info pts vals vars fails lie in
       fout_lengths_b out && arr_eqb (o_lie m) (o_lie out) &&
